@@ -5,8 +5,8 @@ VARIABLE l
 tvars == <<vars, l>>
 Ev(name) == l <= Len(T) /\ T[l].e = name /\ l' = l + 1
 R == T[l]
-TReset == Ev("Reset") /\ inEfun' = FALSE /\ approvedR' = {} /\ approvedW' = {} /\ policy' = R.policy
-TBeg == Ev("EfunBegin") /\ EfunBegin
+TReset == Ev("Reset") /\ inEfun' = "" /\ approvedR' = {} /\ approvedW' = {} /\ policy' = R.policy
+TBeg == Ev("EfunBegin") /\ EfunBegin(R.efun)
 TEnd == Ev("EfunEnd") /\ EfunEnd
 TAsk == Ev("Ask") /\ Ask(R.kind, R.path, R.answer, R.rewritten)
 TFs == Ev("Fs") /\ Fs(R.path, R.mut)
